@@ -108,6 +108,7 @@ class Acc:
   def __init__(self, repo, f, names):
     self.repo, self.f = repo, f
     self.env = dict(names)
+    self.depth = 0
 
   def dn(self, e):
     d = self.repo.dotted(self.f.module, e)
@@ -141,6 +142,16 @@ class Acc:
     v = self.env.get(ast.unparse(e))
     if v == ('nsamples',):
       return 'pos'
+    if isinstance(e, ast.Subscript) and isinstance(e.value, ast.Attribute) \
+            and e.value.attr == 'shape' and ast.unparse(e.slice) == '0' and \
+            isinstance(e.value.value, ast.Name) and \
+            self.env.get(e.value.value.id, ('?',))[0] in ('elem', 'lin'):
+      return 'pos'
+    if isinstance(e, ast.Call) and isinstance(e.func, ast.Name) and \
+            e.func.id == 'len' and len(e.args) == 1 and \
+            isinstance(e.args[0], ast.Name) and \
+            self.env.get(e.args[0].id, ('?',))[0] in ('elem', 'lin'):
+      return 'pos'
     t = ast.unparse(e)
     if t in ('len(y_valid)', 'len(scores)', 'y_valid.shape[0]',
              'pairs_valid.shape[0]', 'scores.shape[0]', 'len(pairs_valid)',
@@ -164,6 +175,14 @@ class Acc:
       if v[0] == 'pick':
         return ('negpick',) + v[1:]
       raise Unknown('negation of %r' % (v[0],))
+    if isinstance(e, ast.UnaryOp) and isinstance(e.op, ast.Invert) and \
+            isinstance(e.operand, ast.Call) and \
+            self.dn(e.operand.func) in (canon('numpy.isclose'),
+                                        canon('numpy.allclose')):
+      raise Different('neighbouring scores are compared with a tolerance '
+                      '(%s): cuts between scores closer than the tolerance '
+                      'are excluded although predict separates them'
+                      % ast.unparse(e))
     if isinstance(e, ast.Attribute) and e.attr == 'shape':
       raise Unknown('shape')
     if isinstance(e, ast.Subscript):
@@ -286,6 +305,59 @@ class Acc:
       if v == ('negscores',):
         return ('perm', True)
       raise Unknown('argsort of %r' % (v,))
+    if d == canon('numpy.flip') and len(args) == 1 and not e.keywords:
+      base = self.ev(args[0])
+      if base[0] == 'perm':
+        return ('perm', not base[1])
+      m = self.length(base)
+      return self.remap(base, m - K(1) - J, m)
+    if d in (canon('numpy.hstack'), canon('numpy.concatenate')) and \
+            len(args) == 1 and isinstance(args[0], (ast.List, ast.Tuple)) and \
+            len(args[0].elts) == 2:
+      a, b = self.ev(args[0].elts[0]), self.ev(args[0].elts[1])
+      # hstack accepts bare scalars where concatenate needs a one-element list
+      if a[0] in ('const', 'pickoff', 'pick'):
+        a = ('list1', a)
+      if b[0] in ('const', 'pickoff', 'pick'):
+        b = ('list1', b)
+      return self.concat(a, b)
+    if d == canon('numpy.append') and len(args) == 2 and not e.keywords:
+      a, b = self.ev(args[0]), self.ev(args[1])
+      if b[0] in ('const', 'pickoff', 'pick'):
+        b = ('list1', b)
+      return self.concat(a, b)
+    # a private helper of the repository with a straight-line body: inline
+    callee = None
+    if isinstance(e.func, ast.Attribute) and \
+            isinstance(e.func.value, ast.Name) and e.func.value.id == 'self' \
+            and self.f.cls is not None:
+      callee = self.repo.resolve_method(self.f.cls, e.func.attr)
+    elif d is None and isinstance(e.func, ast.Name):
+      callee = self.repo.func_by_dotted(
+          self.repo.dotted(self.f.module, e.func) or '')
+    if callee is not None and hasattr(callee, 'node') and \
+            t != 'self.decision_function' and self.depth < 2 and \
+            not e.keywords:
+      params = callee.params()
+      if callee.cls is not None and not callee.is_static:
+        params = params[1:]
+      if len(params) == len(args):
+        sub = Acc(self.repo, callee, dict(
+            (k, v) for k, v in self.env.items() if v == ('nsamples',)))
+        sub.depth = self.depth + 1
+        for p_, a_ in zip(params, args):
+          sub.env[p_] = self.ev(a_)
+        for s_ in callee.node.body:
+          if isinstance(s_, ast.Expr) and isinstance(s_.value, ast.Constant):
+            continue
+          if isinstance(s_, ast.Assign) and len(s_.targets) == 1 and \
+                  isinstance(s_.targets[0], ast.Name):
+            sub.env[s_.targets[0].id] = sub.ev(s_.value)
+          elif isinstance(s_, ast.Return) and s_.value is not None:
+            return sub.ev(s_.value)
+          else:
+            break
+      raise Unknown('helper %s is not straight-line' % t)
     if (d in (canon('numpy.cumsum'),
               canon('sklearn.utils.extmath.stable_cumsum')) or
             t.endswith('stable_cumsum')) and len(args) == 1:
@@ -525,59 +597,111 @@ def rule_fbeta(repo, rep):
     return
   pn, rn, tn = [ast.unparse(x) for x in curve[0].targets[0].elts]
   _curve_args(repo, rep, R, f, curve[0].value, key)
-  fb = [s for s in stm if isinstance(s.targets[0], ast.Name) and
-        pn in [x.id for x in ast.walk(s.value) if isinstance(x, ast.Name)]
-        and s is not curve[0]]
-  if len(fb) != 1:
-    rep.unknown(R, key, site(f, br), 'criterion statement not found')
-    return
-  fname = fb[0].targets[0].id
+  # sequential interpretation of the branch: scalar temporaries are rational
+  # functions of beta, the criterion a rational function of (P, R, beta)
   P, Rr, b = Rat.sym('P'), Rat.sym('R'), Rat.sym('b')
   one = Rat.const(1)
-  v = eval_expr(fb[0].value, {pn: 'P', rn: 'R', 'beta': 'b'}, {})
   want = (one + b * b) * P * Rr / (b * b * P + Rr)
-  if not isinstance(v, Rat):
-    rep.unknown(R, key + ':formula', site(f, fb[0]), 'criterion %s is not a '
-                'rational function of precision, recall, beta'
-                % ast.unparse(fb[0].value))
-  elif v == want:
-    rep.derived(R, key + ':formula', site(f, fb[0]),
-                sample=dict(rule=R, form=repr(v)))
-  else:
-    rep.refuted(R, key + ':formula', site(f, fb[0]), 'criterion is %r, '
-                'documented F-beta %r' % (v, want))
-  # NaN -> 0 before the arg-max, arg-max of the criterion, threshold
-  order = list(ast.walk(br))
-  nan0 = [s for s in stm if isinstance(s.targets[0], ast.Subscript) and
-          ast.unparse(s.targets[0]) in ('%s[np.isnan(%s)]' % (fname, fname),
-                                        '%s[~np.isfinite(%s)]'
-                                        % (fname, fname))
-          and isinstance(s.value, ast.Constant) and s.value.value == 0]
-  nan0 += [s for s in stm if isinstance(s.value, ast.Call) and
-           canon(repo.dotted(f.module, s.value.func) or '') ==
-           canon('numpy.nan_to_num') and ast.unparse(s.targets[0]) == fname
-           and ast.unparse(s.value.args[0]) == fname]
-  am = [s for s in stm if isinstance(s.value, ast.Call) and
-        canon(repo.dotted(f.module, s.value.func) or '') ==
-        canon('numpy.argmax') and len(s.value.args) == 1 and
-        not s.value.keywords]
-  if len(am) != 1:
+  scal = {pn: 'P', rn: 'R', 'beta': 'b'}
+  env = {}            # name -> Rat (scalar temp) | ('crit', Rat, nanfree)
+  state = {'amax': None, 'store': None}
+
+  def dn(e):
+    d = repo.dotted(f.module, e)
+    return canon(d) if d else None
+
+  def is_vec(r):
+    return any(('P' in repr(x)) or ('R' in repr(x)) for x in [r])
+
+  def ev(e):
+    if isinstance(e, ast.Name) and e.id in env:
+      return env[e.id]
+    if isinstance(e, ast.Call):
+      d = dn(e.func)
+      if d == canon('numpy.where') and len(e.args) == 3:
+        c, a, b_ = e.args
+        x = ev(b_)
+        if isinstance(c, ast.Call) and dn(c.func) == canon('numpy.isnan') and \
+                ast.unparse(c.args[0]) == ast.unparse(b_) and \
+                isinstance(a, ast.Constant) and a.value == 0 and \
+                isinstance(x, tuple) and x[0] == 'crit':
+          return ('crit', x[1], True)
+        return None
+      if d == canon('numpy.nan_to_num') and len(e.args) == 1:
+        x = ev(e.args[0])
+        if isinstance(x, tuple) and x[0] == 'crit':
+          return ('crit', x[1], True)
+        return None
+      if d == canon('numpy.argmax') and len(e.args) == 1 and not e.keywords:
+        x = ev(e.args[0])
+        return ('amax', x, e) if isinstance(x, tuple) and x[0] == 'crit' \
+            else ('amax-other', ast.unparse(e.args[0]), e)
+      if isinstance(e.func, ast.Attribute) and e.func.attr == 'argmax' and \
+              not e.args and not e.keywords:
+        x = ev(e.func.value)
+        return ('amax', x, e) if isinstance(x, tuple) and x[0] == 'crit' \
+            else ('amax-other', ast.unparse(e.func.value), e)
+    renv = {k: v for k, v in env.items() if isinstance(v, Rat)}
+    renv.update({k: v[1] for k, v in env.items()
+                 if isinstance(v, tuple) and v[0] == 'crit'})
+    r = eval_expr(e, scal, {}, renv)
+    if isinstance(r, Rat):
+      names = set(x.id for x in ast.walk(e) if isinstance(x, ast.Name))
+      vec = bool(names & {pn, rn}) or any(
+          isinstance(env.get(n_), tuple) for n_ in names)
+      return ('crit', r, False) if vec else r
+    return None
+
+  def run(body):
+    for s_ in body:
+      if isinstance(s_, ast.With):
+        run(s_.body)
+      elif isinstance(s_, ast.Assign) and len(s_.targets) == 1:
+        t0 = s_.targets[0]
+        if s_ is curve[0]:
+          continue
+        if isinstance(t0, ast.Name):
+          v = ev(s_.value)
+          if v is None:
+            env.pop(t0.id, None)
+          else:
+            env[t0.id] = v
+            if isinstance(v, tuple) and v[0] in ('amax', 'amax-other'):
+              state['amax'] = (t0.id, v, s_)
+        elif isinstance(t0, ast.Subscript) and isinstance(t0.value, ast.Name) \
+                and isinstance(env.get(t0.value.id), tuple) and \
+                env[t0.value.id][0] == 'crit':
+          nm = t0.value.id
+          msk = ast.unparse(t0.slice)
+          if msk in ('np.isnan(%s)' % nm, '~np.isfinite(%s)' % nm) and \
+                  isinstance(s_.value, ast.Constant) and s_.value.value == 0:
+            env[nm] = ('crit', env[nm][1], True)
+        elif ast.unparse(t0) == 'self.threshold_':
+          state['store'] = s_
+  run(br.body)
+  crits = [v for v in env.values() if isinstance(v, tuple) and v[0] == 'crit']
+  if state['amax'] is None:
     rep.unknown(R, key + ':argmax', site(f, br), 'arg-max statement not '
                 'found')
     return
-  a_arg = ast.unparse(am[0].value.args[0])
-  if a_arg != fname:
-    rep.add(R, key + ':argmax', 'refuted' if a_arg in (pn, rn, tn) else
-            'unknown', site(f, am[0]), 'the arg-max is taken of %s, not of '
-            'the criterion' % a_arg)
+  iname, av, anode = state['amax']
+  if av[0] == 'amax-other':
+    rep.add(R, key + ':argmax', 'refuted' if av[1] in (pn, rn, tn) else
+            'unknown', site(f, anode), 'the arg-max is taken of %s, not of '
+            'the criterion' % av[1])
+    return
+  rep.derived(R, key + ':argmax', site(f, anode))
+  crit = av[1]
+  if crit[1] == want:
+    rep.derived(R, key + ':formula', site(f, anode),
+                sample=dict(rule=R, form=repr(crit[1])))
   else:
-    rep.derived(R, key + ':argmax', site(f, am[0]))
-  ok_n = bool(nan0) and nan0[0].lineno < am[0].lineno and \
-      nan0[0].lineno > fb[0].lineno
-  rep.add(R, key + ':nan-to-zero', 'derived' if ok_n else 'refuted',
-          site(f, am[0]), '' if ok_n else 'undefined (0/0) criterion entries '
-          'are not set to 0 before the arg-max: NaN compares as the maximum')
-  iname = ast.unparse(am[0].targets[0])
+    rep.refuted(R, key + ':formula', site(f, anode), 'criterion is %r, '
+                'documented F-beta %r' % (crit[1], want))
+  rep.add(R, key + ':nan-to-zero', 'derived' if crit[2] else 'refuted',
+          site(f, anode), '' if crit[2] else 'undefined (0/0) criterion '
+          'entries are not set to 0 before the arg-max: NaN compares as the '
+          'maximum')
   _threshold_store(rep, R, f, br, key, tn, iname)
 
 
@@ -630,162 +754,296 @@ def _threshold_store(rep, R, f, br, key, tn, iname, dead_guards=()):
                   'minus the candidate at the chosen index' % t)
 
 
+class _Roc:
+  """Interpretation of calibrate_threshold for one rate-constrained strategy
+  (tests on `strategy` are decided, other tests fork).  Values:
+    ('lin', {atom: coeff}, const)   vector linear in the curve rates fpr, tpr
+    ('thr',)                        the thresholds of the curve
+    ('minrate',)                    the parameter
+    ('adm', key)                    admissible index set {lin OP 0}
+    ('sub', lin, adm) ('amax_in', lin, adm) ('amax', lin, adm)
+    ('thr_at', lin, adm) ('neg_thr_at', lin, adm)"""
+
+  def __init__(self, repo, f, strategy):
+    self.repo, self.f, self.strategy = repo, f, strategy
+    self.stores = []        # (value, node, dead?)
+    self.curve_call = None
+
+  def dn(self, e):
+    d = self.repo.dotted(self.f.module, e)
+    return canon(d) if d else None
+
+  @staticmethod
+  def lin(terms, const=0):
+    return ('lin', tuple(sorted((k, Fraction(v)) for k, v in terms.items()
+                                if v)), Fraction(const))
+
+  def ev(self, e, env):
+    if isinstance(e, ast.Name):
+      if e.id == 'min_rate':
+        return ('minrate',)
+      return env.get(e.id, ('?',))
+    if isinstance(e, ast.Constant) and isinstance(e.value, (int, float)) and \
+            not isinstance(e.value, bool):
+      return ('num', Fraction(e.value).limit_denominator(10 ** 9))
+    if isinstance(e, ast.UnaryOp) and isinstance(e.op, ast.USub):
+      v = self.ev(e.operand, env)
+      if v[0] == 'lin':
+        return ('lin', tuple((k, -c) for k, c in v[1]), -v[2])
+      if v[0] == 'sub':
+        return ('sub', ('lin', tuple((k, -c) for k, c in v[1][1]), -v[1][2]),
+                v[2])
+      if v[0] == 'thr_at':
+        return ('neg_thr_at',) + v[1:]
+      if v[0] == 'num':
+        return ('num', -v[1])
+      return ('?',)
+    if isinstance(e, ast.BinOp) and isinstance(e.op, (ast.Add, ast.Sub)):
+      a, b = self.ev(e.left, env), self.ev(e.right, env)
+      sg = 1 if isinstance(e.op, ast.Add) else -1
+
+      def as_lin(v):
+        if v[0] == 'lin':
+          return dict(v[1]), v[2]
+        if v[0] == 'num':
+          return {}, v[1]
+        if v[0] == 'minrate':
+          return {'min_rate': Fraction(1)}, Fraction(0)
+        return None
+      # arithmetic on a restricted vector: restrict the result
+      for x, y, swap in ((a, b, False), (b, a, True)):
+        if x[0] == 'sub' and y[0] in ('num', 'lin') and \
+                not any(k in ('fpr', 'tpr') for k, c in
+                        (y[1] if y[0] == 'lin' else ())):
+          lx, ly = as_lin(x[1]), as_lin(y)
+          t = {}
+          first, second = (ly, lx) if swap else (lx, ly)
+          for k, c in first[0].items():
+            t[k] = t.get(k, 0) + c
+          for k, c in second[0].items():
+            t[k] = t.get(k, 0) + sg * c
+          return ('sub', self.lin(t, first[1] + sg * second[1]), x[2])
+      la, lb = as_lin(a), as_lin(b)
+      if la is None or lb is None:
+        # thresholds[idx] - 1 and the like
+        return ('?',)
+      t = dict(la[0])
+      for k, c in lb[0].items():
+        t[k] = t.get(k, 0) + sg * c
+      return self.lin(t, la[1] + sg * lb[1])
+    if isinstance(e, ast.Compare) and len(e.ops) == 1:
+      a, b = self.ev(e.left, env), self.ev(e.comparators[0], env)
+      op = type(e.ops[0])
+      diff = self.ev(ast.BinOp(left=e.left, op=ast.Sub(),
+                               right=e.comparators[0]), env)
+      if diff[0] == 'lin' and any(k in ('fpr', 'tpr') for k, c in diff[1]) \
+              and op in (ast.Lt, ast.LtE, ast.Gt, ast.GtE):
+        terms, const = dict(diff[1]), diff[2]
+        opn = {ast.Lt: '<', ast.LtE: '<=', ast.Gt: '>', ast.GtE: '>='}[op]
+        # canonical sign: coefficient of the rate positive
+        lead = [c for k, c in sorted(terms.items()) if k in ('fpr', 'tpr')][0]
+        if lead < 0:
+          terms = {k: -c for k, c in terms.items()}
+          const = -const
+          opn = {'<': '>', '<=': '>=', '>': '<', '>=': '<='}[opn]
+        return ('adm', (tuple(sorted(terms.items())), const, opn))
+      return ('?',)
+    if isinstance(e, ast.Subscript):
+      b = self.ev(e.value, env)
+      if b[0] == 'wheretuple' and isinstance(e.slice, ast.Constant) and \
+              e.slice.value == 0:
+        return b[1]
+      i = self.ev(e.slice, env)
+      if b[0] == 'lin' and i[0] == 'adm':
+        return ('sub', b, i)
+      if b[0] == 'adm' and i[0] == 'amax_in' and i[2] == b:
+        return ('amax', i[1], b)
+      if b[0] == 'thr' and i[0] == 'amax':
+        return ('thr_at', i[1], i[2])
+      if b[0] in ('thr', 'lin') and i[0] == 'amax_in':
+        raise Different('%s is indexed by the position inside the admissible '
+                        'set, not mapped back through the index set'
+                        % ast.unparse(e.value))
+      return ('?',)
+    if isinstance(e, ast.Call):
+      d = self.dn(e.func)
+      if d in (canon('numpy.where'), canon('numpy.nonzero')) and \
+              len(e.args) == 1:
+        v = self.ev(e.args[0], env)
+        return ('wheretuple', v) if v[0] == 'adm' else ('?',)
+      if d == canon('numpy.flatnonzero') and len(e.args) == 1:
+        v = self.ev(e.args[0], env)
+        return v if v[0] == 'adm' else ('?',)
+      if d == canon('numpy.argmax') and len(e.args) == 1 and not e.keywords:
+        v = self.ev(e.args[0], env)
+        return ('amax_in', v[1], v[2]) if v[0] == 'sub' else ('?',)
+      if isinstance(e.func, ast.Attribute) and e.func.attr == 'argmax' and \
+              not e.args and not e.keywords:
+        v = self.ev(e.func.value, env)
+        return ('amax_in', v[1], v[2]) if v[0] == 'sub' else ('?',)
+      if isinstance(e.func, ast.Name) and e.func.id == 'len' and e.args:
+        v = self.ev(e.args[0], env)
+        return ('len', v)
+    return ('?',)
+
+  def decide(self, test):
+    """truth of a test that only looks at `strategy`; None otherwise"""
+    names = set(x.id for x in ast.walk(test) if isinstance(x, ast.Name))
+    if names != {'strategy'}:
+      return None
+    try:
+      return _abs_eval(test, {'strategy': self.strategy}, self.repo, self.f)
+    except _Undecided:
+      return None
+
+  def run(self, body, env, dead=False):
+    for k, s_ in enumerate(body):
+      if isinstance(s_, ast.If):
+        t = self.decide(s_.test)
+        if t is True:
+          if self.run(s_.body, env, dead) == 'return':
+            return 'return'
+        elif t is False:
+          if self.run(s_.orelse, env, dead) == 'return':
+            return 'return'
+        else:
+          # a test on something else: both branches, each followed by the
+          # rest of the block.  `<index> == len(thresholds)` cannot hold for
+          # an index drawn from the curve
+          isdead = False
+          tt = s_.test
+          if isinstance(tt, ast.Compare) and len(tt.ops) == 1 and \
+                  isinstance(tt.ops[0], ast.Eq):
+            a, b = self.ev(tt.left, env), self.ev(tt.comparators[0], env)
+            for x, y in ((a, b), (b, a)):
+              if x[0] in ('amax', 'amax_in') and y == ('len', ('thr',)):
+                isdead = True
+          rest = body[k + 1:]
+          for br, dd in ((s_.body, dead or isdead), (s_.orelse, dead)):
+            e2 = dict(env)
+            if self.run(list(br) + list(rest), e2, dd) != 'return':
+              pass
+          return 'return'
+      elif isinstance(s_, ast.Assign) and len(s_.targets) == 1:
+        t0 = s_.targets[0]
+        if isinstance(t0, ast.Tuple) and isinstance(s_.value, ast.Call) and \
+                self.dn(s_.value.func) == canon('sklearn.metrics.roc_curve') \
+                and len(t0.elts) == 3:
+          self.curve_call = s_.value
+          for el, at in zip(t0.elts, ('fpr', 'tpr', None)):
+            if isinstance(el, ast.Name):
+              env[el.id] = self.lin({at: 1}) if at else ('thr',)
+        elif isinstance(t0, ast.Tuple) and isinstance(s_.value, ast.Tuple) \
+                and len(t0.elts) == len(s_.value.elts):
+          vals = [self.ev(x, env) for x in s_.value.elts]
+          for el, v in zip(t0.elts, vals):
+            if isinstance(el, ast.Name):
+              env[el.id] = v
+        elif isinstance(t0, ast.Name):
+          env[t0.id] = self.ev(s_.value, env)
+        elif ast.unparse(t0) == 'self.threshold_':
+          self.stores.append((self.ev(s_.value, env), s_, dead))
+      elif isinstance(s_, ast.Return):
+        return 'return'
+      elif isinstance(s_, (ast.Expr, ast.With, ast.Pass)):
+        continue
+    return 'end'
+
+
 def rule_roc(repo, rep):
   R = 'R-FORM:rate-constrained-criteria'
-  rep.rule(R, "strategies 'max_tpr' / 'max_tnr': (fpr, tpr, thresholds) = "
-           'roc_curve(y_valid, decision scores, pos_label=1, '
-           'drop_intermediate=False) - every distinct score stays a '
-           'candidate; max_tpr maximises tpr over {1 - fpr >= min_rate}, '
-           'max_tnr maximises 1 - fpr over {tpr >= min_rate}; the arg-max '
-           'inside the admissible set is mapped back through the index set; '
-           'threshold_ = -thresholds[that index]')
-  f0 = repo.get_func(FN)
-  # roles: indices = the admissible index set (np.where(<cmp>)[0] /
-  # flatnonzero); imax = the arg-max inside it
-  roles = {}
-  for n in ast.walk(f0.node):
-    if isinstance(n, ast.Assign) and isinstance(n.targets[0], ast.Name):
-      v = n.value
-      if isinstance(v, ast.Subscript) and isinstance(v.value, ast.Call) and \
-              canon(repo.dotted(f0.module, v.value.func) or '') == \
-              canon('numpy.where') and ast.unparse(v.slice) == '0':
-        roles[n.targets[0].id] = 'indices'
-      elif isinstance(v, ast.Call) and \
-              canon(repo.dotted(f0.module, v.func) or '') == \
-              canon('numpy.flatnonzero') and len(v.args) == 1 and \
-              isinstance(v.args[0], ast.Compare):
-        roles[n.targets[0].id] = 'indices'
-  ind_n = [k for k, v in roles.items() if v == 'indices']
-  for n in ast.walk(f0.node):
-    if isinstance(n, ast.Assign) and isinstance(n.targets[0], ast.Name) and \
-            isinstance(n.value, ast.Call) and \
-            canon(repo.dotted(f0.module, n.value.func) or '') == \
-            canon('numpy.argmax') and n.value.args and \
-            any(x in [y.id for y in ast.walk(n.value.args[0])
-                      if isinstance(y, ast.Name)] for x in ind_n):
-      roles[n.targets[0].id] = 'imax'
-  f = astutil.role_view(f0, roles)
-  key = 'calibrate_threshold:roc'
-  calls = [s for s in f.node.body if isinstance(s, ast.Assign) and
-           isinstance(s.value, ast.Call) and
-           canon(repo.dotted(f.module, s.value.func) or '') ==
-           canon('sklearn.metrics.roc_curve')]
-  if len(calls) != 1 or not isinstance(calls[0].targets[0], ast.Tuple) or \
-          len(calls[0].targets[0].elts) != 3:
-    rep.unknown(R, key, site(f), 'roc_curve call not found at the top level')
-    return
-  fp, tp, tn = [ast.unparse(x) for x in calls[0].targets[0].elts]
-  kw = _curve_args(repo, rep, R, f, calls[0].value, key)
+  rep.rule(R, "strategies 'max_tpr' / 'max_tnr', interpreted path by path: "
+           '(fpr, tpr, thresholds) = roc_curve(y_valid, decision scores, '
+           'pos_label=1, drop_intermediate=False); max_tpr stores minus the '
+           'threshold at the arg-max of tpr over {1 - fpr >= min_rate}, '
+           'max_tnr at the arg-max of 1 - fpr over {tpr >= min_rate} '
+           '(objectives up to an additive constant), the position inside the '
+           'admissible set being mapped back through the index set')
   Rd = 'R-API:no-candidate-dropped'
   rep.rule(Rd, 'roc_curve is asked to keep every threshold '
            '(drop_intermediate=False): by default it removes collinear '
            'points, one of which can be the best admissible cut-off')
-  di = kw.get('drop_intermediate')
-  rep.add(Rd, key, 'derived' if di == 'False' else 'refuted',
-          site(f, calls[0]), '' if di == 'False' else 'roc_curve called '
-          'with drop_intermediate=%s: collinear candidate thresholds are '
-          'removed before the admissible set is formed' % (di or 'True '
-                                                          '(default)'))
-  for strat, adm_want, obj_want in (
-          ('max_tpr', ('tnr', fp, tp), 'tpr'), ('max_tnr', ('tpr', fp, tp),
-                                                'tnr')):
-    k2 = 'calibrate_threshold:' + strat
-    brs = [n for n in ast.walk(f.node) if isinstance(n, ast.If) and
-           ast.unparse(n.test) == "strategy == '%s'" % strat]
-    if len(brs) != 1:
-      rep.unknown(R, k2, site(f), 'branch not found')
+  f = repo.get_func(FN)
+  F = Fraction
+  want = {
+      'max_tpr': (((('fpr', F(1)), ('min_rate', F(1))), F(-1), '<='),
+                  {'tpr': F(1)}),
+      'max_tnr': (((('min_rate', F(-1)), ('tpr', F(1))), F(0), '>='),
+                  {'fpr': F(-1)})}
+  first = True
+  for strat in ('max_tpr', 'max_tnr'):
+    key = 'calibrate_threshold:' + strat
+    rc = _Roc(repo, f, strat)
+    try:
+      rc.run([s_ for s_ in f.node.body], {})
+    except Different as d_:
+      rep.refuted(R, key, site(f), str(d_))
       continue
-    br = brs[0]
-    stm = [s for s in br.body if isinstance(s, ast.Assign)]
-    ind = [s for s in stm if ast.unparse(s.targets[0]) == 'indices']
-    am = [s for s in stm if ast.unparse(s.targets[0]) == 'imax']
-    if len(ind) != 1 or len(am) != 1:
-      rep.unknown(R, k2, site(f, br), 'admissible set / arg-max statements '
-                  'not found')
+    if rc.curve_call is None:
+      rep.unknown(R, key, site(f), 'roc_curve call not reached for this '
+                  'strategy')
       continue
-    # admissible set: np.where(<cmp>)[0] / np.flatnonzero(<cmp>)
-    v = ind[0].value
-    cmp_ = None
-    if isinstance(v, ast.Subscript) and isinstance(v.value, ast.Call) and \
-            canon(repo.dotted(f.module, v.value.func) or '') == \
-            canon('numpy.where') and ast.unparse(v.slice) == '0' and \
-            len(v.value.args) == 1:
-      cmp_ = v.value.args[0]
-    elif isinstance(v, ast.Call) and \
-            canon(repo.dotted(f.module, v.func) or '') == \
-            canon('numpy.flatnonzero') and len(v.args) == 1:
-      cmp_ = v.args[0]
-    c = guards.cmp_of(cmp_) if cmp_ is not None else None
-    want_src = '1 - %s >= min_rate' % fp if strat == 'max_tpr' else \
-        '%s >= min_rate' % tp
-    cw = guards.cmp_of(ast.parse(want_src, mode='eval').body)
-    if c is None:
-      rep.unknown(R, k2 + ':admissible', site(f, ind[0]), 'admissible set %s '
-                  'not a single linear comparison' % ast.unparse(v))
-    elif c == cw:
-      rep.derived(R, k2 + ':admissible', site(f, ind[0]))
-    else:
-      rep.refuted(R, k2 + ':admissible', site(f, ind[0]), 'admissible set is '
-                  '{%s}, documented {%s}' % (ast.unparse(cmp_), want_src))
-    # objective inside the admissible set
-    a = am[0].value
-    obj = None
-    if isinstance(a, ast.Call) and \
-            canon(repo.dotted(f.module, a.func) or '') == \
-            canon('numpy.argmax') and len(a.args) == 1 and not a.keywords:
-      obj = a.args[0]
-    lin = None
-    if obj is not None:
-      # (1 - fpr)[indices] and 1 - fpr[indices] are the same vector
-      txt = ast.unparse(obj).replace('[indices]', '')
-      try:
-        lin = guards.lin_of(ast.parse(txt, mode='eval').body)
-      except SyntaxError:
-        lin = None
-      sel = '[indices]' in ast.unparse(obj)
-    want_o = guards.lin_of(ast.parse(
-        tp if strat == 'max_tpr' else '1 - ' + fp, mode='eval').body)
-    if obj is None or lin is None or not sel:
-      rep.unknown(R, k2 + ':objective', site(f, am[0]), 'objective %s not '
-                  'recognised' % ast.unparse(a))
-    else:
-      # the arg-max is invariant under adding a constant
-      same = _lin_equal_mod_const(lin, want_o)
-      rep.add(R, k2 + ':objective', 'derived' if same else 'refuted',
-              site(f, am[0]), '' if same else 'the arg-max is taken of %s '
-              'over the admissible set, documented %s' % (
-                  ast.unparse(obj), 'tpr' if strat == 'max_tpr' else
-                  '1 - fpr'))
-  # mapping back and the store
-  outer = [n for n in ast.walk(f.node) if isinstance(n, ast.If) and
-           'max_tpr' in ast.unparse(n.test) and 'max_tnr' in
-           ast.unparse(n.test) and n in f.node.body]
-  if len(outer) != 1:
-    rep.unknown(R, key + ':map-back', site(f), 'common tail not found')
-    return
-  mb = [s for s in outer[0].body if isinstance(s, ast.Assign) and
-        ast.unparse(s.value) == 'indices[imax]']
-  if len(mb) != 1:
-    alias = set(['imax']) | set(
-        ast.unparse(s_.targets[0]) for s_ in outer[0].body
-        if isinstance(s_, ast.Assign) and ast.unparse(s_.value) == 'imax')
-    direct = [n for n in ast.walk(outer[0]) if isinstance(n, ast.Subscript)
-              and ast.unparse(n.value) in (tn, fp, tp) and
-              ast.unparse(n.slice) in alias]
-    if direct:
-      rep.refuted(R, key + ':map-back', site(f, direct[0]), '%s is indexed '
-                  'by the position inside the admissible set, not by '
-                  'indices[imax]' % ast.unparse(direct[0].value))
-    else:
-      rep.unknown(R, key + ':map-back', site(f, outer[0]), 'the index inside '
-                  'the admissible set is not mapped back by indices[imax]')
-    return
-  rep.derived(R, key + ':map-back', site(f, mb[0]))
-  _threshold_store(rep, R, f, outer[0], key, tn,
-                   ast.unparse(mb[0].targets[0]),
-                   dead_guards=('indices[imax] == len(%s)' % tn,
-                                '%s == len(%s)' % (
-                                    ast.unparse(mb[0].targets[0]), tn)))
+    if first:
+      first = False
+      kw = _curve_args(repo, rep, R, f, rc.curve_call,
+                       'calibrate_threshold:roc')
+      di = kw.get('drop_intermediate')
+      rep.add(Rd, 'calibrate_threshold:roc', 'derived' if di == 'False' else
+              'refuted', site(f, rc.curve_call), '' if di == 'False' else
+              'roc_curve called with drop_intermediate=%s: collinear '
+              'candidate thresholds are removed before the admissible set is '
+              'formed' % (di or 'True (default)'))
+    live = [(v, n) for (v, n, dead) in rc.stores if not dead]
+    if any(dead for (v, n, dead) in rc.stores):
+      rep.assume('a store of threshold_ guarded by <index> == len('
+                 'thresholds) is infeasible: indices come from np.where over '
+                 'arrays as long as thresholds')
+    if not live:
+      rep.refuted(R, key, site(f), 'no store of threshold_ for this '
+                  'strategy')
+      continue
+    adm_w, obj_w = want[strat]
+    for (v, node) in live:
+      if v[0] == 'thr_at':
+        rep.refuted(R, key + ':threshold', site(f, node), 'threshold_ = %s: '
+                    'the scores are minus the distances, the threshold is on '
+                    'the distance' % ast.unparse(node.value))
+        continue
+      if v[0] != 'neg_thr_at':
+        rep.unknown(R, key + ':threshold', site(f, node), 'threshold_ = %s '
+                    'is not minus the threshold at an arg-max over an '
+                    'admissible set' % ast.unparse(node.value))
+        continue
+      rep.derived(R, key + ':threshold', site(f, node))
+      lin, adm = v[1], v[2]
+      if adm[1] == adm_w:
+        rep.derived(R, key + ':admissible', site(f, node))
+      else:
+        rep.refuted(R, key + ':admissible', site(f, node), 'admissible set '
+                    'is {%s %s 0}, documented {%s %s 0}' % (
+                        _lin_str(adm[1][0], adm[1][1]), adm[1][2],
+                        _lin_str(adm_w[0], adm_w[1]), adm_w[2]))
+      got = {k: c for k, c in lin[1]}
+      pos = [c for c in got.values()]
+      same = False
+      if set(got) == set(obj_w):
+        k0 = next(iter(obj_w))
+        ratio = got[k0] / obj_w[k0]
+        same = ratio > 0 and all(got[k] == ratio * obj_w[k] for k in obj_w)
+      if same:
+        rep.derived(R, key + ':objective', site(f, node))
+      else:
+        rep.refuted(R, key + ':objective', site(f, node), 'the arg-max is '
+                    'taken of %s, documented %s (up to a constant)' % (
+                        _lin_str(lin[1], lin[2]),
+                        _lin_str(tuple(obj_w.items()), 0)))
+
+
+def _lin_str(terms, const):
+  bits = ['%s*%s' % (c, k) for k, c in terms]
+  if const:
+    bits.append(str(const))
+  return ' + '.join(bits) or '0'
 
 
 def _lin_equal_mod_const(a, b):
@@ -822,9 +1080,146 @@ def rule_fit_calibrates(repo, rep):
   rep.floor('pair learners whose fit calibrates', n, 3)
 
 
+class _Undecided(Exception):
+  pass
+
+
+def _abs_eval(e, env, repo, f):
+  """Truth value of a guard under an abstract environment: strategy is a
+  concrete string, min_rate an element of the partition {nan, neg, zero, mid,
+  one, big} of the floats (each class behaves uniformly in comparisons with
+  the constants 0 and 1, which are the only ones allowed), beta a float."""
+  REP = {'nan': float('nan'), 'neg': -0.5, 'zero': 0.0, 'mid': 0.5,
+         'one': 1.0, 'big': 1.5}
+
+  def val(x):
+    if isinstance(x, ast.Constant):
+      if isinstance(x.value, (int, float)) and not isinstance(x.value, bool) \
+              and x.value not in (0, 1):
+        raise _Undecided('constant %r' % x.value)
+      return x.value
+    if isinstance(x, ast.UnaryOp) and isinstance(x.op, ast.USub):
+      raise _Undecided('negative constant')
+    if isinstance(x, ast.Name):
+      if x.id not in env:
+        raise _Undecided('name %s' % x.id)
+      v = env[x.id]
+      return REP[v] if x.id == 'min_rate' else v
+    if isinstance(x, (ast.Tuple, ast.List)):
+      return tuple(val(y) for y in x.elts)
+    raise _Undecided(type(x).__name__)
+  if isinstance(e, ast.BoolOp):
+    vals = [_abs_eval(x, env, repo, f) for x in e.values]
+    return all(vals) if isinstance(e.op, ast.And) else any(vals)
+  if isinstance(e, ast.UnaryOp) and isinstance(e.op, ast.Not):
+    return not _abs_eval(e.operand, env, repo, f)
+  if isinstance(e, ast.Compare):
+    left = val(e.left)
+    res = True
+    for op, r_ in zip(e.ops, e.comparators):
+      right = val(r_)
+      if isinstance(op, ast.Is):
+        ok = left is right
+      elif isinstance(op, ast.IsNot):
+        ok = left is not right
+      elif isinstance(op, ast.In):
+        ok = left in right
+      elif isinstance(op, ast.NotIn):
+        ok = left not in right
+      elif isinstance(op, ast.Eq):
+        ok = left == right
+      elif isinstance(op, ast.NotEq):
+        ok = left != right
+      else:
+        if isinstance(left, str) or isinstance(right, str) or \
+                left is None or right is None:
+          raise _Undecided('ordering of non-numbers')
+        ok = {ast.Lt: left < right, ast.LtE: left <= right,
+              ast.Gt: left > right, ast.GtE: left >= right}[type(op)]
+      res = res and ok
+      left = right
+    return res
+  if isinstance(e, ast.Call):
+    d = canon(repo.dotted(f.module, e.func) or '') if \
+        repo.dotted(f.module, e.func) else None
+    if isinstance(e.func, ast.Name) and e.func.id == 'isinstance' and \
+            len(e.args) == 2 and isinstance(e.args[0], ast.Name):
+      tn = ast.unparse(e.args[1])
+      v = env.get(e.args[0].id)
+      if e.args[0].id in ('min_rate', 'beta'):
+        if tn in ('(int, float)', '(float, int)', 'float',
+                  'numbers.Real', '(int, float, np.floating)'):
+          return True       # the classes model float values
+        raise _Undecided('isinstance %s' % tn)
+      raise _Undecided('isinstance')
+    if d in (canon('numpy.isnan'), 'math.isnan') and len(e.args) == 1 and \
+            ast.unparse(e.args[0]) == 'min_rate':
+      return env['min_rate'] == 'nan'
+    raise _Undecided('call %s' % ast.unparse(e.func))
+  if isinstance(e, ast.Name) or isinstance(e, ast.Constant):
+    return bool(val(e))
+  raise _Undecided(type(e).__name__)
+
+
+def _abs_run(body, env, repo, f):
+  """'ValueError' | 'other:<exc>' | 'ok' for a body made of if / raise /
+  expression statements"""
+  for s_ in body:
+    if isinstance(s_, ast.If):
+      br = s_.body if _abs_eval(s_.test, env, repo, f) else s_.orelse
+      r = _abs_run(br, env, repo, f)
+      if r != 'ok':
+        return r
+    elif isinstance(s_, ast.Raise):
+      names = repo.exception_bases(f.module, s_.exc) if s_.exc else ['?']
+      return 'ValueError' if 'ValueError' in names else 'other:%s' % names[0]
+    elif isinstance(s_, ast.Return):
+      return 'ok'
+    elif isinstance(s_, (ast.Expr, ast.Pass)):
+      continue
+    else:
+      raise _Undecided('statement %s' % type(s_).__name__)
+  return 'ok'
+
+
+def rule_min_rate_range(repo, rep):
+  R = 'R-GUARD:min-rate-range-rejects-nan'
+  rep.rule(R, '_validate_calibration_params, interpreted over the partition '
+           '{NaN, <0, 0, (0,1), 1, >1} of the values of min_rate (exact for '
+           'comparisons with 0 and 1), raises ValueError for the rate-'
+           'constrained strategies exactly on {NaN, <0, >1}: a test written '
+           '`min_rate < 0 or min_rate > 1` lets NaN through, `not min_rate '
+           '>= 0 or not min_rate <= 1` does not')
+  f = repo.get_func('base_metric._PairsClassifierMixin.'
+                    '_validate_calibration_params')
+  rep.analysed(f)
+  body = [s_ for s_ in f.node.body
+          if not (isinstance(s_, ast.Expr) and
+                  isinstance(s_.value, ast.Constant))]
+  want = {'nan': 'ValueError', 'neg': 'ValueError', 'big': 'ValueError',
+          'zero': 'ok', 'mid': 'ok', 'one': 'ok'}
+  for strat in ('max_tpr', 'max_tnr'):
+    for cls_, w in want.items():
+      key = '_validate_calibration_params:%s:min_rate=%s' % (strat, cls_)
+      try:
+        got = _abs_run(body, {'strategy': strat, 'min_rate': cls_,
+                              'beta': 1.0}, repo, f)
+      except _Undecided as u:
+        rep.unknown(R, key, site(f), 'guard outside the interpreted forms: '
+                    '%s' % u)
+        continue
+      if got == w:
+        rep.derived(R, key, site(f))
+      else:
+        rep.refuted(R, key, site(f), 'for strategy %r and min_rate in the '
+                    'class %s the validation gives %s, documented %s'
+                    % (strat, cls_, got, w))
+
+
 def check(repo, rep, tier):
   before = len(rep.obs)
   c06.rule_calibration_first(repo, rep)
+  rule_min_rate_range(repo, rep)
   rule_accuracy(repo, rep)
   rule_fbeta(repo, rep)
   rule_roc(repo, rep)
